@@ -1,6 +1,8 @@
 import OmplModel.Model.Dubins
 import OmplModel.Model.ReedsShepp
 import OmplModel.Model.Owen
+import OmplModel.Model.Vana
+import OmplModel.Model.VanaOwen
 import OmplModel.Driver.Common
 /-! Line-protocol driver for the Dubins model.
 Header `dubins rho=<bits> sym=<0|1> lo=<bits> hi=<bits>` (the bounds are set on the real space only;
@@ -30,6 +32,10 @@ structure St where
   dint : Bool := false
   owen : Bool := false
   tanp : Float := 0.0
+  vana : Bool := false
+  pitch : Float := 0.0
+  lastArc : Bool := false
+  vo : Bool := false
 
 def kv? (key : String) (tok : String) : Option String :=
   if tok.startsWith (key ++ "=") then some (tok.drop (key.length + 1)).toString else none
@@ -41,19 +47,38 @@ def init (ts : List String) : Option St :=
     let s ← kv? "sym" s
     let _ ← (kv? "lo" lo) >>= parseFloatBits?
     let _ ← (kv? "hi" hi) >>= parseFloatBits?
-    if s == "0" then pure ⟨r, false, false, false, false, 0.0⟩ else if s == "1" then pure ⟨r, true, false, false, false, 0.0⟩ else none
+    if s == "0" then pure { rho := r, sym := false } else if s == "1" then pure { rho := r, sym := true } else none
   | ["rs", r, lo, hi] => do
     let r ← (kv? "rho" r) >>= parseFloatBits?
     let _ ← (kv? "lo" lo) >>= parseFloatBits?
     let _ ← (kv? "hi" hi) >>= parseFloatBits?
-    pure ⟨r, false, true, false, false, 0.0⟩
-  | ["dint"] => some ⟨1.0, false, false, true, false, 0.0⟩
+    pure { rho := r, sym := false, rs := true }
+  | ["dint"] => some { rho := 1.0, sym := false, dint := true }
+  | ["vana", r, p, lo, hi] => do
+    let r ← (kv? "rho" r) >>= parseFloatBits?
+    let p ← (kv? "pitch" p) >>= parseFloatBits?
+    let _ ← (kv? "lo" lo) >>= parseFloatBits?
+    let _ ← (kv? "hi" hi) >>= parseFloatBits?
+    pure { rho := r, sym := false, vana := true, pitch := p }
+  | ["vana", r, p, lo, hi, la] => do
+    let r ← (kv? "rho" r) >>= parseFloatBits?
+    let p ← (kv? "pitch" p) >>= parseFloatBits?
+    let _ ← (kv? "lo" lo) >>= parseFloatBits?
+    let _ ← (kv? "hi" hi) >>= parseFloatBits?
+    let la ← kv? "lastarc" la
+    pure { rho := r, sym := false, vana := true, pitch := p, lastArc := la == "1" }
+  | ["vanaowen", r, p, lo, hi] => do
+    let r ← (kv? "rho" r) >>= parseFloatBits?
+    let p ← (kv? "pitch" p) >>= parseFloatBits?
+    let _ ← (kv? "lo" lo) >>= parseFloatBits?
+    let _ ← (kv? "hi" hi) >>= parseFloatBits?
+    pure { rho := r, sym := false, vo := true, pitch := p }
   | ["owen", r, p, lo, hi] => do
     let r ← (kv? "rho" r) >>= parseFloatBits?
     let p ← (kv? "pitch" p) >>= parseFloatBits?
     let _ ← (kv? "lo" lo) >>= parseFloatBits?
     let _ ← (kv? "hi" hi) >>= parseFloatBits?
-    pure ⟨r, false, false, false, true, Float.tan p⟩
+    pure { rho := r, sym := false, owen := true, tanp := Float.tan p }
   | _ => none
 
 def pose? : List String → Option (Pose Float)
@@ -98,6 +123,15 @@ def stepRS (st : St) (ts : List String) : St × String :=
       | some P => (st, showPose P)
       | none => (st, "none")
     | _, _, _ => (st, "bad-op")
+  | "rscache" :: a :: b :: c :: d :: e :: f :: rest =>
+    match pose? [a, b, c], pose? [d, e, f], takeCounted rest with
+    | some s1, some s2, some (xs, []) =>
+      match xs.mapM parseFloatBits? with
+      | some ts =>
+        (st, " | ".intercalate ((OmplModel.RS.rsInterpCached st.rho s1 s2 none ts).map
+          (fun o => match o with | some P => showPose P | none => "nopath")))
+      | none => (st, "bad-op")
+    | _, _, _ => (st, "bad-op")
   | ["rsend", a, b, c, d, e, f] =>
     match pose? [a, b, c], pose? [d, e, f] with
     | some s1, some s2 =>
@@ -136,6 +170,14 @@ def stepD (st : St) (ts : List String) : St × String :=
       match interpolate st.rho st.sym s1 s2 t with
       | some P => (st, showPose P)
       | none => (st, "none")
+    | _, _, _ => (st, "bad-op")
+  | "icache" :: a :: b :: c :: d :: e :: f :: rest =>
+    match pose? [a, b, c], pose? [d, e, f], takeCounted rest with
+    | some s1, some s2, some (xs, []) =>
+      match xs.mapM parseFloatBits? with
+      | some ts =>
+        (st, " | ".intercalate ((interpCached st.rho st.sym s1 s2 none ts).map (fun o => match o with | some P => showPose P | none => "nopath")))
+      | none => (st, "bad-op")
     | _, _, _ => (st, "bad-op")
   | ["endp", a, b, c, d, e, f] =>
     match pose? [a, b, c], pose? [d, e, f] with
@@ -268,7 +310,82 @@ def stepOwen (st : St) (ts : List String) : St × String :=
     | _, _, _, _ => (st, "bad-op")
   | _ => (st, "bad-op")
 
+/-! Vana space (header `vana`, see harness/dubins.cpp): fully recomputed -/
+
+def st5? : List String → Option (OmplModel.Vana.St5 Float)
+  | [x, y, z, p, w] => do
+    let x ← parseFloatBits? x
+    let y ← parseFloatBits? y
+    let z ← parseFloatBits? z
+    let p ← parseFloatBits? p
+    let w ← parseFloatBits? w
+    pure ⟨x, y, z, p, w⟩
+  | _ => none
+
+def vtol : Float := 1e-8
+
+def stepVana (st : St) (ts : List String) : St × String :=
+  match ts with
+  | ["vpath", a, b, c, d, e, f, g, h, i, j] =>
+    match st5? [a, b, c, d, e], st5? [f, g, h, i, j] with
+    | some s1, some s2 =>
+      match OmplModel.Vana.getPath st.lastArc st.rho (-st.pitch) st.pitch vtol s1 s2 with
+      | some p =>
+        (st, "rh=" ++ floatBits p.rh ++ " rv=" ++ floatBits p.rv ++ " XY " ++ showPath p.xy ++ " SZ " ++ showPath p.sz ++
+          " len=" ++ floatBits p.len)
+      | none => (st, "nopath")
+    | _, _ => (st, "bad-op")
+  | ["vinterp", a, b, c, d, e, f, g, h, i, j, t] =>
+    match st5? [a, b, c, d, e], st5? [f, g, h, i, j], parseFloatBits? t with
+    | some s1, some s2, some t =>
+      let q := OmplModel.Vana.interpolateV st.lastArc st.rho (-st.pitch) st.pitch vtol s1 s2 t
+      (st, joinSp [floatBits q.x, floatBits q.y, floatBits q.z, floatBits q.pitch, floatBits q.yaw])
+    | _, _, _ => (st, "bad-op")
+  | _ => (st, "bad-op")
+
+/-! VanaOwen (header `vanaowen`): the whole path is a recorded answer; `interpolate` is recomputed from it -/
+
+def path3? (w t p q : String) : Option (Path Float) := do
+  let w ← word? w
+  let t ← parseFloatBits? t
+  let p ← parseFloatBits? p
+  let q ← parseFloatBits? q
+  pure ⟨w, t, p, q, false⟩
+
+def voPath? : List String → Option (OmplModel.VanaOwen.VOPath Float)
+  | [_cat, rh, rv, dz, phi, k, "XY", w1, t1, p1, q1, "SZ", w2, t2, p2, q2, sz0, _len] => do
+    let rh ← (kv? "rh" rh) >>= parseFloatBits?
+    let rv ← (kv? "rv" rv) >>= parseFloatBits?
+    let dz ← (kv? "dz" dz) >>= parseFloatBits?
+    let phi ← (kv? "phi" phi) >>= parseFloatBits?
+    let k ← (kv? "k" k) >>= String.toNat?
+    let xy ← path3? w1 t1 p1 q1
+    let sz ← path3? w2 t2 p2 q2
+    let s0 ← kv? "sz0" sz0
+    match s0.splitOn "," with
+    | [a, b, c] =>
+      let a ← parseFloatBits? a
+      let b ← parseFloatBits? b
+      let c ← parseFloatBits? c
+      pure ⟨xy, sz, rh, rv, dz, phi, Float.ofNat k, ⟨a, b, c⟩⟩
+    | _ => none
+  | _ => none
+
+def stepVO (st : St) (ts : List String) : St × String :=
+  match ts with
+  | "vointerpr" :: a :: b :: c :: d :: e :: f :: g :: h :: i :: j :: t :: rest =>
+    match st5? [a, b, c, d, e], st5? [f, g, h, i, j], parseFloatBits? t, voPath? rest with
+    | some s1, some s2, some t, some p =>
+      let q := OmplModel.VanaOwen.voInterp s1 s2 t p
+      (st, joinSp [floatBits q.x, floatBits q.y, floatBits q.z, floatBits q.pitch, floatBits q.yaw])
+    | _, _, _, _ => (st, "bad-op")
+  | ["volen", _cat, rh, rv, dz, phi, k, xy, w1, t1, p1, q1, szt, w2, t2, p2, q2, sz0, len] =>
+    match voPath? [_cat, rh, rv, dz, phi, k, xy, w1, t1, p1, q1, szt, w2, t2, p2, q2, sz0, len] with
+    | some p => (st, "cat=" ++ p.category ++ " len=" ++ floatBits p.len)
+    | none => (st, "bad-op")
+  | _ => (st, "bad-op")
+
 def step (st : St) (ts : List String) : St × String :=
-  if st.owen then stepOwen st ts else if st.dint then stepDint st ts else if st.rs then stepRS st ts else stepD st ts
+  if st.vo then stepVO st ts else if st.vana then stepVana st ts else if st.owen then stepOwen st ts else if st.dint then stepDint st ts else if st.rs then stepRS st ts else stepD st ts
 
 end OmplModel.Driver.DubinsDrv
